@@ -1563,9 +1563,9 @@ class Message(ABC):
                     )
                 elif sub_cls == timedelta:
                     value = (
-                        [timedelta(seconds=float(item[:-1])) for item in value]
+                        [_Duration.delta_from_json(item) for item in value]
                         if isinstance(value, list)
-                        else timedelta(seconds=float(value[:-1]))
+                        else _Duration.delta_from_json(value)
                     )
                 elif not meta.wraps:
                     value = (
@@ -1969,12 +1969,26 @@ class _Duration(Duration):
         return timedelta(seconds=self.seconds, microseconds=self.nanos / 1e3)
 
     @staticmethod
+    def delta_from_json(value: str) -> timedelta:
+        # parse the decimal seconds exactly instead of through a float
+        text = value[:-1]
+        negative = text.startswith("-")
+        whole, _, frac = text.lstrip("+-").partition(".")
+        if not (whole or frac) or not (whole + frac).isdigit():
+            return timedelta(seconds=float(text))
+        us = int(whole or 0) * 10**6 + int((frac + "000000")[:6])
+        return timedelta(microseconds=-us if negative else us)
+
+    @staticmethod
     def delta_to_json(delta: timedelta) -> str:
-        parts = str(delta.total_seconds()).split(".")
-        if len(parts) > 1:
-            while len(parts[1]) not in (3, 6, 9):
-                parts[1] = f"{parts[1]}0"
-        return f"{'.'.join(parts)}s"
+        # integer arithmetic: str(float) would give exponent notation for small
+        # values ("1e-06s") and lose microseconds for large ones
+        total_us = delta // timedelta(microseconds=1)
+        sign = "-" if total_us < 0 else ""
+        seconds, us = divmod(abs(total_us), 10**6)
+        if us % 1000 == 0:
+            return f"{sign}{seconds}.{us // 1000:03d}s"
+        return f"{sign}{seconds}.{us:06d}s"
 
 
 class _Timestamp(Timestamp):
